@@ -146,3 +146,84 @@ func executeSlots(t *testing.T, c SlotCase) (kind, detail string) {
 	}
 	return
 }
+
+// executeSlotsFull fills the session table: clients with distinct addresses connect until the server
+// refuses one (or 1500 were accepted). Every accepted client must have been told an identifier no
+// other live client holds, and the first and last three of them must each reach the server-side
+// connection of their own identifier.
+func executeSlotsFull(t *testing.T) (kind, detail string, accepted int) {
+	res := bubble.Run(t, func() {
+		w, err := world.New(world.Options{Carrier: "dns", Channels: []string{"x"}, DnsRaw: true})
+		if err != nil {
+			kind, detail = "setup", err.Error()
+			return
+		}
+		lis := w.Dns.Lis
+		var live []*sdns.ClientDnsConnection
+		ids := map[uint16]int{}
+		for i := 0; i < 1500; i++ {
+			cl, _, err := w.Dns.NewClientConnPort(4300 + i)
+			if err != nil {
+				kind, detail = "setup", err.Error()
+				return
+			}
+			qt := util.QueryTypeNull
+			cl.Serializer.Upstream.QueryType = &qt
+			cl.Serializer.Upstream.Encoder = enc.Base32Encoding
+			cl.Serializer.Downstream.Encoder = enc.Base32Encoding
+			cl.Serializer.Upstream.FragmentSize = 60
+			var herr error
+			do(func() { herr = cl.VersionHandshake() })
+			if herr != nil {
+				break // the table is full: a reported refusal
+			}
+			if k, dup := ids[cl.VerifUserId()]; dup {
+				kind, detail = "duplicate-session-id|slots-full", fmt.Sprintf("clients %d and %d are both alive and were both told identifier %d (%d sessions live)", k, i, cl.VerifUserId(), len(live))
+				return
+			}
+			ids[cl.VerifUserId()] = i
+			live = append(live, cl)
+		}
+		accepted = len(live)
+		if accepted < 2 {
+			kind, detail = "setup", fmt.Sprintf("only %d sessions accepted", accepted)
+			return
+		}
+		pick := []int{0, 1, 2, accepted - 3, accepted - 2, accepted - 1}
+		for _, j := range pick {
+			if j < 0 || j >= accepted {
+				continue
+			}
+			cl := live[j]
+			var perr error
+			do(func() { perr = cl.SendAndReceive(nil) })
+			if perr != nil {
+				kind, detail = "live-session-terminated|slots-full", fmt.Sprintf("with %d sessions live the poll of client %d (id %d) was refused: %v", accepted, j, cl.VerifUserId(), perr)
+				return
+			}
+			conn := lis.VerifUserConn(cl.VerifUserId())
+			if conn == nil {
+				kind, detail = "live-session-terminated|slots-full", fmt.Sprintf("no server-side connection for client %d (id %d)", j, cl.VerifUserId())
+				return
+			}
+			var got []byte
+			go func() {
+				b := make([]byte, 16)
+				n, _ := conn.Read(b)
+				got = b[:n]
+			}()
+			data := []byte{0xE0 + byte(j%16), 0x55, byte(j), byte(j >> 8)}
+			var werr error
+			do(func() { _, werr = cl.Write(data) })
+			bubble.Wait()
+			if werr != nil || string(got) != string(data) {
+				kind, detail = "foreign-or-reordered-bytes|slots-full", fmt.Sprintf("with %d sessions live client %d (id %d) wrote % x (err %v); the server-side connection of that id read % x", accepted, j, cl.VerifUserId(), data, werr, got)
+				return
+			}
+		}
+	})
+	if kind == "" && res.Panic != "" {
+		kind, detail = "panic|slots-full", res.Panic
+	}
+	return
+}
